@@ -374,8 +374,69 @@ func (w Win) projExtListNoWrap(ss []string, bad *string) []any {
 	return out
 }
 
+// evPointInVoxel: for an ARBITRARY float64 point (not on the lattice) the voxel returned by the
+// lookup must contain the point according to the library's own vertex query (whose geometry C02
+// ties to the lattice): west <= lon < east, south < lat <= north (latitudes to within the 1e-10
+// degree storage resolution), bottom <= alt < top.  The six comparisons are recorded; TLC requires them.
+func evPointInVoxel(t *Tracer, r Rng) {
+	lon := -180 + 360*r.Float64()
+	lat := -latLimit + 2*latLimit*r.Float64()
+	alt := (r.Float64()*2 - 1) * math.Ldexp(1, int(r.In(-8, 25)))
+	switch r.Intn(8) {
+	case 0:
+		lon = math.Round(lon*8) / 8 // often exactly on tile boundaries of low zooms
+	case 1:
+		alt = math.Round(alt)
+	case 2:
+		alt = -math.Abs(alt)
+	case 3:
+		lon = float64(r.Pick(-180, 180))
+	}
+	h, v := r.In(0, 35), r.In(0, 35)
+	pt, err := object.NewPoint(lon, lat, alt)
+	if err != nil {
+		return
+	}
+	e := absW.ev("PointInVoxel", map[string]any{"pt": hexTriple(lon, lat, alt), "h": h, "v": v})
+	e.R = map[string]any{"west": false, "east": false, "south": false, "north": false, "bottom": false, "top": false, "n": 0}
+	o, _ := guard(func() (any, error) {
+		ids, err := shape.GetExtendedSpatialIdsOnPoints([]*object.Point{pt}, h, v)
+		if err != nil {
+			return nil, err
+		}
+		vs, err := shape.GetPointOnExtendedSpatialId(ids[0], enum.Vertex)
+		if err != nil {
+			return nil, err
+		}
+		if len(ids) != 1 || len(vs) != 8 {
+			return nil, nil
+		}
+		const tol = 1.2e-10
+		plon := pt.Lon()
+		if plon == 180 {
+			plon = -180 // documented fold
+		}
+		east := vs[1].Lon()
+		e.R = map[string]any{
+			"west":   vs[0].Lon() <= plon,
+			"east":   plon < east || (east == 180 && plon <= 180),
+			"north":  pt.Lat() <= vs[0].Lat()+tol,
+			"south":  pt.Lat() > vs[2].Lat()-tol,
+			"bottom": vs[0].Alt() <= pt.Alt(),
+			"top":    pt.Alt() < vs[4].Alt(),
+			"n":      len(ids)}
+		return nil, nil
+	})
+	e.O = o
+	t.Emit(e, true)
+}
+
 func drivePoint(t *Tracer, r Rng, n int) {
 	for i := 0; i < n; i++ {
+		if i%3 == 2 {
+			evPointInVoxel(t, r)
+			continue
+		}
 		if r.Chance(0.7) {
 			hD, vD := r.In(0, 24), r.In(0, 24) // lattice depth h+5 must stay below 2^30
 			w := r.randomWindow(hD, vD, false)
